@@ -113,7 +113,7 @@ bool CodeWriterUtils::encode_offset32(uint32_t* dst, int64_t offset64, const Off
       uint32_t ja = ((~value >> 23) ^ (value >> 22)) & 1u;
       uint32_t jb = ((~value >> 23) ^ (value >> 21)) & 1u;
 
-      *dst = ia | ib | ic | (ja << 14) | (jb << 11);
+      *dst = ia | ib | ic | (ja << 13) | (jb << 11);
       return true;
     }
 
@@ -130,7 +130,7 @@ bool CodeWriterUtils::encode_offset32(uint32_t* dst, int64_t offset64, const Off
       uint32_t ja = ((~value >> 19) ^ (value >> 22)) & 1u;
       uint32_t jb = ((~value >> 19) ^ (value >> 21)) & 1u;
 
-      *dst = ia | ib | ic | (ja << 14) | (jb << 11);
+      *dst = ia | ib | ic | (ja << 13) | (jb << 11);
       return true;
     }
 
